@@ -204,6 +204,20 @@ def reach(t, acc=None):
     return acc
 
 
+def uses_float(t):
+    import pydsdl
+
+    def has(dt):
+        if isinstance(dt, pydsdl.FloatType):
+            return True
+        if isinstance(dt, pydsdl.ArrayType):
+            return has(dt.element_type)
+        return False
+    parts = [t.request_type, t.response_type] if isinstance(t, pydsdl.ServiceType) else [t]
+    own = any(has(a.data_type) for p in parts for a in p.attributes if isinstance(a, pydsdl.Field))
+    return own or any(has(a.data_type) for c in reach(t).values() for a in c.attributes if isinstance(a, pydsdl.Field))
+
+
 def shape_tags(t):
     """Coarse description of a type for the evidence counters."""
     import pydsdl
@@ -318,25 +332,27 @@ class Cfg:
 
 def configurations(quick):
     cs = []
-    all_opts = ["--target-endianness", "little", "--enable-serialization-asserts", "--enable-override-variable-array-capacity",
-                "--omit-float-serialization-support"]
+    all_opts = ["--target-endianness", "little", "--enable-serialization-asserts", "--enable-override-variable-array-capacity"]
+    nofloat = ["--omit-float-serialization-support"]   # documented: errors if floating point types are used -> judged on float-free types only
     # ---- C
     cs.append(Cfg("c/default", "c", []))
     cs.append(Cfg("c/omit", "c", [], omit=True))
     cs.append(Cfg("c/allopts", "c", all_opts))
+    cs.append(Cfg("c/nofloat", "c", nofloat))
     cs.append(Cfg("c/nostd+omit", "c", [], omit=True, overrides={"use_standard_types": False}))
     if not quick:
         cs.append(Cfg("c/nostd", "c", [], overrides={"use_standard_types": False}))
         cs.append(Cfg("c/big+asserts", "c", ["--target-endianness", "big", "--enable-serialization-asserts"]))
         cs.append(Cfg("c/little", "c", ["--target-endianness", "little"]))
         cs.append(Cfg("c/ovr", "c", ["--enable-override-variable-array-capacity"]))
-        cs.append(Cfg("c/nofloat+omit", "c", ["--omit-float-serialization-support"], omit=True))
+        cs.append(Cfg("c/nofloat+allopts", "c", nofloat + all_opts))
         cs.append(Cfg("c/sysinc", "c", [], overrides={"prefer_system_includes": True}))
     # ---- C++
     for std in ["c++14", "c++17", "c++20", "c++17-pmr"]:
         cs.append(Cfg(f"cpp/{std}", "cpp", [], std=std))
         cs.append(Cfg(f"cpp/{std}+omit", "cpp", [], std=std, omit=True))
     cs.append(Cfg("cpp/c++14+allopts", "cpp", all_opts, std="c++14"))
+    cs.append(Cfg("cpp/c++17+nofloat", "cpp", nofloat, std="c++17"))
     # CETL is not available offline: generated and scanned, not compiled
     cs.append(Cfg("cpp/cetl++14-17+omit", "cpp", [], std="cetl++14-17", omit=True, compile_ok=False))
     cs.append(Cfg("cpp/c++17+nostd+omit", "cpp", [], std="c++17", omit=True, overrides={"use_standard_types": False}, compile_ok=False))
@@ -717,13 +733,16 @@ def run(ctx: common.Ctx):
                     guards.setdefault(m.group(1), []).append(h)
                 else:
                     ctx.fail({"kind": "no-include-guard"}, "generated header without include guard", replay_blob(u, c, {"header": h}))
-            collided = {h for hs in guards.values() if len(hs) > 1 for h in hs}
+            collided = {h: g for g, hs in guards.items() if len(hs) > 1 for h in hs}
             for g, hs in guards.items():
                 if len(hs) > 1:
                     ctx.fail({"kind": "include-guard-collision"}, f"different generated headers share the include guard {g}",
                              replay_blob(u, c, {"guard": g, "headers": hs}))
             # quoted-include closure per header (for attributing consequences of a guard collision; missing files)
-            quoted = {h: [i[1:-1] for i in _INCLUDE.findall(txt) if i.startswith('"')] for h, txt in texts.items()}
+            # project-relative operands: the quoted ones; with prefer_system_includes the <...> ones that name a path with a directory
+            prefer_sys = lang.get_config_value_as_bool("prefer_system_includes", False)
+            quoted = {h: [i[1:-1] for i in _INCLUDE.findall(txt) if i.startswith('"') or (prefer_sys and i.startswith("<") and "/" in i)]
+                      for h, txt in texts.items()}
 
             def closure(h, seen=None, quoted=quoted):
                 seen = set() if seen is None else seen
@@ -779,7 +798,12 @@ def run(ctx: common.Ctx):
                 reqs.append(f"guard {enc(mac)} {t.version.major} {t.version.minor} {enc('_INCLUDED_' if c.target == 'c' else '_HPP_INCLUDED')}")
                 meta.append(("guard", u, c, t, rel, texts[rel]))
             if c.compile_ok:
-                for j in compile_jobs_for(c, out, headers, flags, quick):
+                to_compile = headers
+                if "--omit-float-serialization-support" in c.args and not c.omit:
+                    floaty = {lang_path(lang, t) for t in all_types if uses_float(t)}
+                    to_compile = [h for h in headers if h not in floaty]
+                    ctx.count("headers_not_judged_under_omit_float(type uses float)", len(headers) - len(to_compile))
+                for j in compile_jobs_for(c, out, to_compile, flags, quick):
                     j = j + (tuple(c.args),)
                     compile_jobs.append(j)
                     job_ctx[id(j)] = (u, c, collided, closure)
@@ -875,7 +899,9 @@ def run(ctx: common.Ctx):
             ndiag += 1
             u, c, collided, closure = job_ctx[id(job)]
             outdir, header, cmd, xlang = job[:4]
-            gc = header in collided or bool(closure(header) & collided)
+            inc_set = [header] + sorted(closure(header))
+            gs = [collided[x] for x in inc_set if x in collided]
+            gc = len(set(gs)) < len(gs)      # the translation unit contains two headers with one include guard
             cause = classify(c, cmd, first, gc)
             first_rel = first.replace(str(outdir) + "/", "")
             ctx.fail({"kind": "diagnostic", "cause": cause},
